@@ -1,13 +1,19 @@
 """C03 — a source is never admitted faster than its token-bucket rate allows."""
 
+from props.stress import stress_extra
+
 RL = {"name": "ratelimit", "coq_run": "Model.Limiter.run", "quick": 600, "thorough": 30000}
+RLSTRESS_WHAT = ("requests of ONE source running through the limiter at the same time on a frozen clock: simultaneous first "
+                 "requests of an untracked source are admitted exactly burst times; a simultaneous flood rejected by the "
+                 "per-second rate leaves the hour budget untouched")
 
 SPEC = {
     "components": [RL],
+    "extra": stress_extra("rlstress", "C03", ["-rounds", "300", "-g", "8"], ["-rounds", "6000", "-g", "12"], RLSTRESS_WHAT),
     "rule": "histories = seeded random request/tick sequences over 1-5 sources on a TokenLimiter with 1-3 rates "
             "(periods 0.5s..60s, averages 1..100, bursts 1..12*average), capacity 1..8 or 65536; modes: mixed, sustained "
             "traffic over many entry lifetimes, idle gaps around burst*tpt and the expiry second, retry at the advertised "
-            "instant; one history in six has a rate extractor and requests carrying alternative rate sets; non-trivial = contains admitted and rejected requests; distinct = distinct (config, op sequence)",
+            "instant; one history in six has a rate extractor and requests carrying alternative rate sets; non-trivial = contains admitted and rejected requests; distinct = distinct (config, op sequence); plus (support) harness/rlstress: " + RLSTRESS_WHAT,
     "trusted_base": ["models coq/Model/Bucket.v, Limiter.v hand-written from ratelimit/bucket.go, bucketset.go, tokenlimiter.go "
                      "and collections/ttlmap.go; tie = differential replay incl. bucket levels read through verif hooks",
                      "container/heap tie-breaking among equal expiries is an oracle input validated to be minimal"],
